@@ -1,0 +1,7 @@
+//go:build !verif
+
+package kernel
+
+const simEnabled = false
+
+var simStepMode = false
